@@ -250,6 +250,260 @@ def roundtrip(seed):
     return n, bad
 
 
+
+# ---------------------------------------------------------------- spec/UserFiles.tla: the namespace as a state machine
+UNAMES = {'u1': 'notes.json', 'u2': 'log.txt'}
+
+
+def uf_model(thorough):
+    mod = 'MC_UserFiles'
+    text = ('---- MODULE MC_UserFiles ----\nEXTENDS UserFiles\nc_UserNames == {"u1", "u2"}\nc_Keys == %s\n'
+            'c_Texts == {1, 2}\n====\n' % ('{1, 2}' if thorough else '{1}'))
+    consts = 'CONSTANTS\n UserNames <- c_UserNames\n Keys <- c_Keys\n Texts <- c_Texts\n'
+    cfg = ('SPECIFICATION Spec\n' + consts + 'INVARIANT TypeOK\nINVARIANT ProtectedNeverChanges\n'
+           'PROPERTY RefusalChangesNothing\nPROPERTY CopyFaithful\nPROPERTY CopyIndependent\n'
+           'PROPERTY SourceIndependent\nPROPERTY OnlyNamed\n')
+    wd = tlc.workdir()
+    with open(os.path.join(wd, mod + '.tla'), 'w') as f:
+        f.write(text)
+    dumpf = os.path.join(wd, 'uf_graph')
+    r = tlc.run(mod, cfg, wd=wd, workers=8, dump=dumpf, timeout=900)
+    tlc.must_pass(r, mod)
+    tlc.check_coverage(r, ['Write', 'Update', 'Delete', 'OpenAppend', 'CopyDir', 'WriteCopy', 'Observe'], mod)
+    # vacuity control: overwriting a user file is reachable, so this property must be violated
+    rc = tlc.run(mod, 'SPECIFICATION Spec\n' + consts + 'PROPERTY NeverOverwritten\n', wd=wd, workers=4,
+                 coverage=False, timeout=300)
+    if rc.violation is None:
+        raise Machinery('UserFiles control: NeverOverwritten was not violated (vacuous model?)')
+    from .. import tlaparse
+    return r, tlaparse.dot(dumpf + '.dot')
+
+
+def uf_text(v):
+    return TEXT * v
+
+
+def uf_json(ks):
+    return {'k%d' % k: [k, 'v ☃'] for k in sorted(ks)}
+
+
+def uf_expected_bytes_ok(path, c):
+    """independent reading of a user file against the abstract content; returns a mismatch text or None"""
+    if c['t'] == 'none':
+        return None if not os.path.lexists(path) else 'exists, expected absent'
+    if not os.path.isfile(path):
+        return 'missing'
+    raw = open(path, 'rb').read()
+    if c['t'] == 'txt':
+        return None if raw == uf_text(c['v']).encode('utf-8') else 'text bytes differ: %r' % raw[:60]
+    try:
+        got = json.loads(raw.decode('utf-8'))
+    except Exception as e:
+        return 'not JSON (%s)' % type(e).__name__
+    return None if got == uf_json(c['v']) else 'JSON differs: %r' % (got,)
+
+
+def _uf_job(batch):
+    import hashlib
+    import darr
+    g = _UF['g']
+    out = []
+    for (jid, kind, path, seed) in batch:
+        res = {'kind': kind, 'steps': 0, 'jid': jid}
+        root = tempfile.mkdtemp(prefix='darrc20u_')
+        try:
+            a, p = make(root, kind)
+            os.unlink(os.path.join(p, USER))
+            dd = a.datadir
+            cpp = os.path.join(root, 'replica.darr')
+            cpdd = None
+            prot = (['arraydescription.json', 'arrayvalues.bin', 'README.txt', 'metadata.json'] if kind == 'Array'
+                    else ['arraydescription.json', 'README.txt', 'metadata.json', 'values', 'indices/arrayvalues.bin',
+                          'values/README.txt'])
+            base = {k: v for k, v in disk.snapshot(p).items() if k not in UNAMES.values()}
+            for si, (src, (name, args, dst)) in enumerate(path):
+                st = g.nodes[dst]
+                j = jid + si + seed
+                form = (lambda n: Path(n)) if j % 3 == 1 else ((lambda n: './' + n) if j % 3 == 2 else (lambda n: n))
+
+                def nm(n):
+                    return prot[j % len(prot)] if n == 'P' else UNAMES[n]
+                exc = None
+                skipped = False
+                try:
+                    if name == 'Write':
+                        n, c, ow = args
+                        if c['t'] == 'txt':
+                            dd.write_txt(form(nm(n)), uf_text(c['v']), overwrite=ow)
+                        elif j % 2:
+                            dd.write_jsondict(form(nm(n)), uf_json(c['v']), overwrite=ow)
+                        else:
+                            dd.write_jsonfile(form(nm(n)), uf_json(c['v']), overwrite=ow)
+                    elif name == 'Update':
+                        n, ks = args
+                        if j % 2:
+                            dd.update_jsondict(form(nm(n)), uf_json(ks))
+                        else:
+                            dd.update_jsondict(form(nm(n)), **uf_json(ks))
+                    elif name == 'Delete':
+                        lst = [form(nm(n)) for n in sorted(args[0], reverse=bool(j % 2))]
+                        dd.delete_files(tuple(lst) if j % 4 == 3 else lst)
+                    elif name == 'OpenAppend':
+                        n = args[0]
+                        cur = g.nodes[src]['f'][n]
+                        if n != 'P' and cur['t'] != 'none' and not (cur['t'] == 'txt' and cur['v'] == 1):
+                            skipped = True
+                        else:
+                            with dd.open_file(form(nm(n)), 'a', encoding='utf-8', newline='') as fh:
+                                fh.write(TEXT)
+                    elif name == 'CopyDir':
+                        x = dd.copy(cpp if j % 2 else Path(cpp))
+                        if cpdd is None:
+                            cpdd = x
+                    elif name == 'WriteCopy':
+                        n, c = args
+                        if c['t'] == 'txt':
+                            cpdd.write_txt(nm(n), uf_text(c['v']), overwrite=True)
+                        else:
+                            cpdd.write_jsondict(nm(n), uf_json(c['v']), overwrite=True)
+                    elif name == 'Observe':
+                        try:
+                            sha = dd.sha256checksums()
+                        except IsADirectoryError:
+                            sha = None      # named deviation ShaOnRagged: sub-directories are not skipped
+                            if kind == 'Array':
+                                raise
+                        if sha is not None:
+                            want = {}
+                            for e in os.listdir(p):
+                                fp = os.path.join(p, e)
+                                if os.path.isfile(fp):
+                                    want[str(Path(p) / e)] = hashlib.sha256(open(fp, 'rb').read()).hexdigest()
+                            if {k: v for k, v in sha.items() if os.path.isfile(k)} != want or dd.sha256 != sha:
+                                res['mism'] = [('sha256checksums', 'one sha256 digest per file', repr(sha)[:300])]
+                    else:
+                        raise Machinery('unknown action ' + name)
+                except OSError as e:
+                    exc = ('Refused', repr(e)[:200])
+                except Machinery:
+                    raise
+                except Exception as e:
+                    exc = ('Raises', repr(e)[:200])
+                res['steps'] += 1
+                mm = res.get('mism', [])
+                want_out = 'ok' if skipped else st['out']
+                got_out = exc[0] if exc else 'ok'
+                if want_out == 'Raises':
+                    okout = exc is not None
+                else:
+                    okout = got_out == want_out
+                if not okout:
+                    mm.append(('outcome', want_out, got_out + (': ' + exc[1] if exc else '')))
+                for n, fn in UNAMES.items():
+                    m = uf_expected_bytes_ok(os.path.join(p, fn), st['f'][n])
+                    if m:
+                        mm.append(('user file %s' % n, st['f'][n], m))
+                    elif st['f'][n]['t'] == 'txt' and dd.read_txt(fn) != uf_text(st['f'][n]['v']):
+                        mm.append(('read_txt %s' % n, st['f'][n], 'differs'))
+                    elif st['f'][n]['t'] == 'json' and dd.read_jsondict(fn) != uf_json(st['f'][n]['v']):
+                        mm.append(('read_jsondict %s' % n, st['f'][n], 'differs'))
+                now = {k: v for k, v in disk.snapshot(p).items() if k not in UNAMES.values()}
+                if now != base:
+                    mm.append(('protected files', 'byte-identical', disk.snapdiff(base, now)[:3]))
+                if 't' in st['cp']:
+                    if os.path.lexists(cpp):
+                        mm.append(('replica', 'absent', 'present'))
+                else:
+                    for n, fn in UNAMES.items():
+                        m = uf_expected_bytes_ok(os.path.join(cpp, fn), st['cp'][n])
+                        if m:
+                            mm.append(('replica user file %s' % n, st['cp'][n], m))
+                    nowc = {k: v for k, v in disk.snapshot(cpp).items() if k not in UNAMES.values()}
+                    if nowc != base:
+                        mm.append(('replica protected files', 'byte-identical to the source',
+                                   disk.snapdiff(base, nowc)[:3]))
+                if mm:
+                    res['mism'] = mm
+                    res['at'] = '%s(%s)' % (name, ', '.join(str(x) for x in args))
+                    res['from'] = {'f': g.nodes[src]['f'], 'cp': g.nodes[src]['cp']}
+                    res['spelling'] = ['plain', 'Path', './'][j % 3]
+                    break
+        except Machinery:
+            raise
+        except Exception:
+            res['error'] = traceback.format_exc()
+        finally:
+            shutil.rmtree(root, ignore_errors=True)
+        out.append(res)
+    return out
+
+
+_UF = {}
+
+
+def userfiles_walk(run, thorough, seed):
+    import random
+    rnd = random.Random(seed)
+    r, g = uf_model(thorough)
+    run.tlc('UserFiles', r)
+    _UF['g'] = g
+    parent = {}
+    order = []
+    for n in g.init:
+        parent[n] = None
+        order.append(n)
+    for n in order:
+        for e in g.edges.get(n, []):
+            if e[2] not in parent:
+                parent[e[2]] = (n, e)
+                order.append(e[2])
+
+    def path_to(n):
+        pp = []
+        while parent[n] is not None:
+            m, e = parent[n]
+            pp.append((m, e))
+            n = m
+        return pp[::-1]
+    alledges = [(n, e) for n in order for e in g.edges.get(n, [])]
+    rnd.shuffle(alledges)
+    covered = set()
+    paths = []
+    cap = 12000 if thorough else 2500
+    for (n, e) in alledges:
+        key = (n, e[0], repr(e[1]), e[2])
+        if key in covered:
+            continue
+        pth = path_to(n) + [(n, e)]
+        node = e[2]
+        for _ in range(6):
+            nxt = [x for x in g.edges.get(node, []) if (node, x[0], repr(x[1]), x[2]) not in covered]
+            if not nxt:
+                break
+            x = rnd.choice(nxt)
+            pth.append((node, x))
+            node = x[2]
+        for (m, x) in pth:
+            covered.add((m, x[0], repr(x[1]), x[2]))
+        paths.append(pth)
+        if len(paths) >= cap:
+            break
+    run.add('userfiles_graph_edges', len(alledges))
+    run.add('userfiles_edges_covered', len(covered))
+    jobs = [(i, ('Array', 'RaggedArray')[(i + seed) % 2], pth, seed) for i, pth in enumerate(paths)]
+    batches = [jobs[i:i + 25] for i in range(0, len(jobs), 25)]
+    with mp.get_context('fork').Pool(16) as pool:
+        for rr in pool.imap_unordered(_uf_job, batches):
+            for res in rr:
+                if 'error' in res:
+                    raise Machinery('UserFiles replay failed: ' + res['error'])
+                run.add('userfiles_paths_replayed')
+                run.add('evaluations', res['steps'])
+                if 'mism' in res:
+                    first = res['mism'][0][0].split(' u')[0]
+                    sig = 'C20|userfiles|%s|%s|%s' % (res['kind'], res['at'].split('(')[0], first)
+                    run.violation(sig, res, {'kind': 'userfiles', 'case': res})
+
 def run(tier, seed):
     run = Run('C20', tier, seed, 'model_checking')
     thorough = tier == 'thorough'
@@ -275,6 +529,7 @@ def run(tier, seed):
             plain = 'plain' if b['spelling'] in (b['spelling'].split('/')[-1],) and b['form'] == 'str' else 'spelled'
             run.violation('C20|%s|%s|%s|%s|%s' % (b['kind'], b['method'], cls, b['form'], plain), b,
                           {'kind': 'datadir', 'case': b})
+    userfiles_walk(run, thorough, seed)
     n, bad = roundtrip(seed)
     # the same round trips in an interpreter whose default text encoding is ASCII
     import subprocess
